@@ -7,13 +7,16 @@ i.e. by division arithmetic, MSB first) that shares no code with the model's mas
 import Driver.Common
 import Cascette.Model.Manifest
 import Cascette.Model.ManifestExt
+import Cascette.Model.ManifestMut
 import Cascette.Spec.TagSets
 open Cascette Drv
 open Cascette.Model.Manifest Cascette.Model.Serial Cascette.Model.ManifestExt
+open Cascette.Model.ManifestMut
 
 structure St where
   mode : Nat := 0              -- 0 none, 1 install, 2 download, 3 size
   ib : IBuilder := IBuilder.empty
+  isrc : ISrc := none          -- `source_header` of the install builder (set by `frommanifest`)
   db : Option DBuilder := none
   sb : SBuilder := SBuilder.new
   sf : Option SFile := none
@@ -200,7 +203,7 @@ def handle (s : St) : List String → St × String
     | none => (s, "bad-op")
   | ["masks"] =>
     if s.mode == 1 then
-      match s.ib.build with
+      match IMut.build ⟨s.ib, s.isrc⟩ with
       | .ok m => (s, toString m.entries.length ++ " " ++ joinOr (m.tags.map maskLine))
       | .error e => (s, e.str)
     else if s.mode == 2 then
@@ -213,7 +216,7 @@ def handle (s : St) : List String → St × String
     else (s, "bad-op")
   | "build" :: rest =>
     if s.mode == 1 then
-      match s.ib.build with
+      match IMut.build ⟨s.ib, s.isrc⟩ with
       | .error e => (s, e.str)
       | .ok m0 =>
         let m : Option IManifest :=
@@ -225,6 +228,13 @@ def handle (s : St) : List String → St × String
               some { m0 with version := 2, v2 := some (c, e, 0),
                              entries := m0.entries.map fun en => { en with ftype := some f } }
             | _, _, _ => none
+          | ["v2x", cks, ec2, ft, unk] =>
+            -- V2 header with every extension field given, file-type byte (ft + 7 i) % 256 for entry i
+            match cks.toNat?, ec2.toNat?, ft.toNat?, unk.toNat? with
+            | some c, some e, some f, some u =>
+              some { m0 with version := 2, v2 := some (c, e, u),
+                             entries := m0.entries.mapIdx fun i en => { en with ftype := some ((f + 7 * i) % 256) } }
+            | _, _, _, _ => none
           | _ => none
         match m with
         | none => (s, "bad-op")
@@ -241,6 +251,33 @@ def handle (s : St) : List String → St × String
           let bytes := serDownload m
           ({ s with bytes := bytes, dm := parseDownload bytes, im := none }, hexOf bytes)
     else (s, "bad-op")
+  | ["frommanifest"] =>
+    -- `from_manifest(&<the manifest parsed back after the last build>)` replaces the builder
+    if s.mode == 1 then
+      match s.im with
+      | some m => ({ s with ib := (IMut.fromManifest m).b, isrc := (IMut.fromManifest m).src }, "ok")
+      | none => (s, "no-manifest")
+    else if s.mode == 2 then
+      match s.dm with
+      | some m => ({ s with db := some (dFromManifest m) }, "ok")
+      | none => (s, "no-manifest")
+    else (s, "bad-op")
+  | ["q", "hdr"] =>
+    match s.im, s.dm with
+    | some m, _ =>
+      (s, "v=" ++ toString m.version ++
+        (match m.v2 with
+         | some (c, e, u) => " cks=" ++ toString c ++ " ec2=" ++ toString e ++ " unk=" ++ toString u
+         | none => "") ++
+        " ft=" ++ joinC (m.entries.map fun e => match e.ftype with | some f => toString f | none => "n"))
+    | none, some m =>
+      (s, "v=" ++ toString m.version ++ " cks=" ++ (if m.hasCks then "1" else "0") ++
+        " fs=" ++ toString m.flagSize ++ " base=" ++ toString m.basePrio)
+    | none, none => (s, "no-manifest")
+  | ["q", "eff"] =>
+    match s.dm with
+    | some m => (s, joinC ((effList m).map toString))
+    | none => (s, "no-manifest")
   | ["reparse"] =>
     if s.mode == 1 then
       match s.im with
